@@ -45,6 +45,15 @@ def main():
         if f != 'OverlapFilter':
             cfg['out_sim_score'] = [False]
         ck.e2('api-%s' % f, h_join.make(cfg), chunk_paths=500)
+    # output prefixes that attribute names already start with ('x' + 'x', 'y' + 'y')
+    for e in ('jaccard_join', 'overlap_join'):
+        cfg = stages.join_cfg(e, nl=2, nr=2, k=1, kmin=0, out_sim_score=[True], props=P, validate_every=80,
+                              out_attrs=[(['x', 'y'], ['y', 'x']), (None, ['y'])], l_out_prefix='x', r_out_prefix='y')
+        cfg['thresholds'] = [1] if e == 'overlap_join' else [0.5]
+        ck.e2('prefix-collision-%s' % e, h_join.make(cfg))
+    ck.e2('prefix-collision-SizeFilter', h_join.make(stages.filter_cfg(
+        'SizeFilter', nl=2, nr=2, k=1, kmin=0, out_sim_score=[False], props=P, validate_every=80,
+        out_attrs=[(['x', 'y'], ['y', 'x'])], l_out_prefix='x', r_out_prefix='y', thresholds=[0.5])))
     ck.finish()
 
 
